@@ -50,6 +50,9 @@ func errAlt(syms ...Sym) SAlt { return SAlt{Err: true, Body: syms} }
 // Families is the list of template families GenSyntax knows.
 var Families = []string{"expr", "list", "stmts", "brackets", "random", "lr1notlalr", "nullable", "long", "random", "random"}
 
+// BoundaryFamilies are shapes near the LR(1) boundary (used on top of Families by C04).
+var BoundaryFamilies = []string{"lr1notlalr", "cyclic", "rr1la", "nullconflict", "nullable", "random", "expr"}
+
 // GenSyntax builds a random syntax part (no actions, no lexical part).
 func GenSyntax(r *rand.Rand, o SynGenOpts) *Grammar {
 	s := &synGen{r: r, o: o}
@@ -73,6 +76,12 @@ func GenSyntax(r *rand.Rand, o SynGenOpts) *Grammar {
 		g = s.nullablePrefix()
 	case "long":
 		g = s.long()
+	case "cyclic":
+		g = s.cyclic()
+	case "rr1la":
+		g = s.rrOneLookahead()
+	case "nullconflict":
+		g = s.nullConflict()
 	default:
 		g = s.random()
 	}
@@ -227,6 +236,52 @@ func (s *synGen) nullablePrefix() *Grammar {
 		a.Alts[0], a.Alts[1] = a.Alts[1], a.Alts[0]
 	}
 	return &Grammar{NTs: []*NTDef{top, a, b}}
+}
+
+// cyclic: a start symbol that derives itself (accept/reduce conflict), directly or through a chain.
+func (s *synGen) cyclic() *Grammar {
+	s.pickTerminals(3)
+	t := s.terms
+	switch s.r.Intn(3) {
+	case 0:
+		return &Grammar{NTs: []*NTDef{{Head: "S", Alts: []SAlt{alt(nt("S")), alt(t[0])}}}}
+	case 1:
+		return &Grammar{NTs: []*NTDef{
+			{Head: "S", Alts: []SAlt{alt(nt("A")), alt(t[0], nt("S"))}},
+			{Head: "A", Alts: []SAlt{alt(nt("S")), alt(t[1])}}}}
+	}
+	// self-derivation through a nullable neighbour: S : N S | a ; N : empty | b
+	return &Grammar{NTs: []*NTDef{
+		{Head: "S", Alts: []SAlt{alt(nt("N"), nt("S")), alt(t[0])}},
+		{Head: "N", Alts: []SAlt{emptyAlt(), alt(t[1])}}}}
+}
+
+// rrOneLookahead: two reductions compete on exactly one look-ahead, or on none.
+func (s *synGen) rrOneLookahead() *Grammar {
+	s.pickTerminals(5)
+	t := s.terms
+	x, y := t[3], t[4]
+	if s.r.Intn(2) == 0 {
+		y = x // same follower: reduce/reduce conflict on that one terminal
+	}
+	return &Grammar{NTs: []*NTDef{
+		{Head: "S", Alts: []SAlt{alt(nt("A"), x), alt(nt("B"), y), alt(t[0], nt("A"), t[1])}},
+		{Head: "A", Alts: []SAlt{alt(t[2])}},
+		{Head: "B", Alts: []SAlt{alt(t[2])}}}}
+}
+
+// nullConflict: a conflict that is only reachable through nullable prefixes.
+func (s *synGen) nullConflict() *Grammar {
+	s.pickTerminals(4)
+	t := s.terms
+	g := &Grammar{NTs: []*NTDef{
+		{Head: "S", Alts: []SAlt{alt(nt("N"), nt("M"), t[0]), alt(nt("M"), nt("N"), t[1])}},
+		{Head: "N", Alts: []SAlt{emptyAlt(), alt(t[2])}},
+		{Head: "M", Alts: []SAlt{emptyAlt(), alt(t[3])}}}}
+	if s.r.Intn(2) == 0 {
+		g.NTs[0].Alts[1] = alt(nt("M"), t[1])
+	}
+	return g
 }
 
 // long: alternatives with more than ten symbols (multi-digit $ indices).
